@@ -262,6 +262,41 @@ def near_phrase_world(rng, n):
     return adocs, qgen
 
 
+def negation_world(rng, n):
+    """Most documents contain the negated term, a good part of them gets deleted (unmerged): the inverse
+    matcher has to step over matches and deleted documents that follow one another."""
+    t = world.rand_term(rng)
+    f = rng.choice(world.TEXT_FIELDS)
+    adocs = {}
+    for i in range(n):
+        d = world.rand_doc(rng)
+        if rng.random() < 0.7:
+            d["t"][f] = d["t"].get(f, []) + [t]
+        adocs["k%d" % i] = d
+
+    def qgen(r):
+        term = {"op": "term", "f": f, "t": t, "b4": 4}
+        other = {"op": "term", "f": r.choice(world.TEXT_FIELDS), "t": world.rand_term(r), "b4": 4}
+        form = r.choice(["not", "andnot-every", "and-not", "or-not", "andnot"])
+        if form == "not":
+            return {"op": "not", "q": term}
+        if form == "andnot-every":
+            return {"op": "andnot", "a": {"op": "every", "f": "", "b4": 4}, "b": term}
+        if form == "andnot":
+            return {"op": "andnot", "a": other, "b": term}
+        return {"op": "and" if form == "and-not" else "or", "kids": [other, {"op": "not", "q": term}], "b4": 4}
+    return adocs, qgen
+
+
+def negation_plan(rng, adocs):
+    ks = sorted(adocs)
+    cut = rng.randrange(1, len(ks))
+    parts = [ks] if rng.random() < 0.5 else [ks[:cut], ks[cut:]]
+    plan = [("commit", p, {"merge": False}) for p in parts]
+    plan.append(("delete", rng.sample(ks, max(1, len(ks) * 2 // 5))))
+    return plan
+
+
 def check(run):
     quick = run.tier == "quick"
     rng = random.Random(run.seed + 101)
@@ -276,6 +311,11 @@ def check(run):
                               qgen=lambda r: world.rand_span_query(r, r.randrange(1, 4)))
     rejects = qobs.judge(run, cases, name="QueryCheck-spans")
     report(run, "C01", cases, meta, rejects, "c01-spans")
+    # negations over segments with unmerged deletions
+    cases, meta = build_cases(run, rng, 8 if quick else 60, 10 if quick else 16, ndocs=(8, 16), worldgen=negation_world,
+                              plangen=negation_plan)
+    rejects = qobs.judge(run, cases, name="QueryCheck-negation")
+    report(run, "C01", cases, meta, rejects, "c01-negation")
     # phrases and spans at the edge of their slop
     cases, meta = build_cases(run, rng, 8 if quick else 80, 16 if quick else 24, ndocs=(4, 9), worldgen=near_phrase_world)
     rejects = qobs.judge(run, cases, name="QueryCheck-nearphrase")
